@@ -85,17 +85,26 @@ def handler_table(ctx) -> Dict[str, str]:
     # list of mnemonics and the f-string naming the method
     mn_list = None
     pattern = None
+    def _strs(e):
+        return [x.value for x in e.elts] if isinstance(e, (ast.List, ast.Tuple)) and all(isinstance(x, ast.Constant) and isinstance(x.value, str) for x in e.elts) else None
+
+    table = None
     for n in A.body_nodes(gih):
-        if isinstance(n, ast.Assign) and isinstance(n.value, ast.List) and all(isinstance(e, ast.Constant) and isinstance(e.value, str) for e in n.value.elts):
-            mn_list = [e.value for e in n.value.elts]
+        if isinstance(n, ast.Assign) and _strs(n.value) is not None:
+            mn_list = _strs(n.value)
         if isinstance(n, ast.DictComp) and isinstance(n.value, ast.Call) and dotted(n.value.func) == "getattr" and len(n.value.args) == 2 and isinstance(n.value.args[1], ast.JoinedStr):
             js = n.value.args[1]
             pattern = "".join(v.value if isinstance(v, ast.Constant) else "{}" for v in js.values)
-    if mn_list is None or pattern is None:
+            if _strs(n.generators[0].iter) is not None:  # the comprehension iterates over the display itself
+                mn_list = _strs(n.generators[0].iter)
+        if isinstance(n, ast.Dict) and n.keys and all(isinstance(k_, ast.Constant) and isinstance(k_.value, str) for k_ in n.keys) and all(A.is_self_attr(v_) for v_ in n.values):
+            table = {k_.value: v_.attr for k_, v_ in zip(n.keys, n.values)}  # written out: {'set': self._instr_set, ...}
+    if table is None and (mn_list is None or pattern is None):
         raise AnalysisError("handler table of _get_instruction_handlers not recognised (list of mnemonics + getattr(self, f'_instr_{mne}'))")
-    table = {}
-    for mn in mn_list:
-        table[mn] = pattern.format(mn)
+    if table is None:
+        table = {}
+        for mn in mn_list:
+            table[mn] = pattern.format(mn)
     # first test in _execute_command must be `command.mnemonic in self._instruction_handlers`
     cmdp = A.param_names(exc)[2]
     chain = None
